@@ -784,6 +784,65 @@ def _rule_r6(text, log):
                '            %s = __r6_keep; })') % (E, E, x, E, body, E, E)
         out = out[:mm.start()] + rep + out[close + 1:]
         n += 1
+    # (o) RECV.iter().enumerate().map(|(i, x)| BODY).collect()  and  (p) RECV.iter().collect()  (vector of references)
+    def _recv_before(m_, pos):
+        k = pos - 1
+        d = 0
+        while k >= 0:
+            ch = m_[k]
+            if ch in ')]}':
+                d += 1
+            elif ch in '([{':
+                if d == 0:
+                    break
+                d -= 1
+            elif d == 0 and ch in ';=':
+                break
+            k -= 1
+        return k + 1
+    while True:
+        m = rs.mask(out)
+        mm = re.search(r'\s*\.iter\(\)\s*\.enumerate\(\)\s*\.map\(', m)
+        if not mm:
+            break
+        op = mm.end() - 1
+        close = rs.match_brace(m, op)
+        tail = re.match(r'\s*\.collect\(\)', m[close + 1:])
+        inner = out[op + 1:close]
+        cm = re.match(r'\s*\|\s*\(\s*([a-z_][a-z0-9_]*)\s*,\s*([a-z_][a-z0-9_]*)\s*\)\s*\|\s*', inner)
+        if not tail or not cm:
+            raise Unsupported('R6o: iter().enumerate().map(..).collect() shape not recognised')
+        rs_ = _recv_before(m, mm.start())
+        recv = re.sub(r'\s+', '', out[rs_:mm.start()])
+        lead = out[rs_:mm.start()]
+        lead_ws = lead[:len(lead) - len(lead.lstrip())]
+        rep = ('%s({ let mut __r6_out = Vec::new(); let mut __r6_i: usize = 0;\n'
+               '            while __r6_i < %s.len() {\n'
+               '                let %s = __r6_i; let %s = &%s[__r6_i];\n'
+               '                let __r6_e = %s;\n'
+               '                __r6_out.push(__r6_e);\n'
+               '                __r6_i += 1;\n'
+               '            }\n'
+               '            __r6_out })') % (lead_ws, recv, cm.group(1), cm.group(2), recv, inner[cm.end():].strip())
+        out = out[:rs_] + rep + out[close + 1 + tail.end():]
+        n += 1
+    while True:
+        m = rs.mask(out)
+        mm = re.search(r'\s*\.iter\(\)\s*\.collect\(\)', m)
+        if not mm:
+            break
+        rs_ = _recv_before(m, mm.start())
+        recv = re.sub(r'\s+', '', out[rs_:mm.start()])
+        lead = out[rs_:mm.start()]
+        lead_ws = lead[:len(lead) - len(lead.lstrip())]
+        rep = ('%s({ let mut __r6_out = Vec::new(); let mut __r6_i: usize = 0;\n'
+               '            while __r6_i < %s.len() {\n'
+               '                __r6_out.push(&%s[__r6_i]);\n'
+               '                __r6_i += 1;\n'
+               '            }\n'
+               '            __r6_out })') % (lead_ws, recv, recv)
+        out = out[:rs_] + rep + out[mm.end():]
+        n += 1
     # (g) EXPR.iter().map(|&x| BODY).collect()  where EXPR is the (possibly multi-line) receiver chain of the statement
     while True:
         m = rs.mask(out)
@@ -1405,20 +1464,26 @@ def splice_fn(item_text, ann, log):
     for (kwpos, bopen, kw) in ([] if ann.get('noaxioms') else rs.loops_in(body)):
         ins.append((bopen + 1, ' proof { unit_axioms(); } '))
     for (k, text, payload) in ann.get('before', []):
-        # k-th occurrence of text in body (code only), insertion at start of its line
+        # k-th occurrence of text in body (code only), insertion at start of its line;
+        # `A` else `B`: B is tried (first occurrence, same line rule) when A is not found
+        alts = text.split('` else `')
         pos = -1
-        cnt = 0
-        sidx = 0
-        while True:
-            p = body.find(text, sidx)
-            if p < 0:
-                break
-            if mbody[p] == body[p]:
-                cnt += 1
-                if cnt == k:
-                    pos = p
+        for ai, atext in enumerate(alts):
+            cnt = 0
+            sidx = 0
+            want = k if ai == 0 else 1
+            while True:
+                p = body.find(atext, sidx)
+                if p < 0:
                     break
-            sidx = p + 1
+                if mbody[p] == body[p]:
+                    cnt += 1
+                    if cnt == want:
+                        pos = p
+                        break
+                sidx = p + 1
+            if pos >= 0:
+                break
         if pos < 0:
             lost.append('anchor %r (#%d) not found' % (text, k))
             continue
